@@ -4,6 +4,16 @@ V = os.path.dirname(os.path.dirname(os.path.abspath(__file__)))
 props = [json.loads(l) for l in open(os.path.join(V, "properties.jsonl"))]
 
 CLAIMED = {
+    "C04": dict(
+        text="Coq theorems about the bucket algebra of the simulated order (size_remaining is a derived quantity in code and model, so the identity is definitional; the content is non-negativity, 'only moves size' and completion): every primitive - cancel (full/partial/larger than the remainder), aggressive fragment, passive fill (never more than remains; matched never decreases), fill-or-kill (nothing remains), lapse on suspension, void - is proved to keep the order 'good' and to move exactly the stated amount between exactly the stated buckets. The void clause is proved PARTIAL (nothing cancelled/lapsed before) and the full clause is REFUTED on the faithful model by a vm_compute witness (known finding F-C04-1); three further known findings (late FAILURE responses re-opening a completed order, a control marking a live order VIOLATION, no completion sweep at the closing update) are reproduced on the implementation and printed as KNOWN-FINDING. Tie to code: whole-loop correspondence of the simulation model on the real FlumineSimulation incl. a structured family of requests in flight racing fills/suspensions/removals, evaluated in Coq; independent conservation checker at every strategy call.",
+        note="PARTIAL: the per-primitive theorems are not yet lifted to an invariant of the whole loop (fold of step over all event lists); that lift is tested by the correspondence + checker, not proved. LAY limit orders carried to SP: conservation on the total only (cancelled absorbs the difference) as the property states. Trusted: Coq kernel + vm_compute; simlib.py. Print Assumptions: closed under the global context.",
+        technique="Coq proof of bucket-algebra lemmas + refutation witness + differential correspondence of the simulation model evaluated in Coq",
+        ref="DESIGN.md §5 C04"),
+    "C09": dict(
+        text="Coq theorems about the model of _process_runner_removal: the void of an order on the removed runner in ANY state gives matched 0, no fragments, voided = size and remaining = -(cancelled+lapsed) (complete void iff nothing was cancelled/lapsed: the rest is known finding F-C04-1); fills on the other runners keep sizes and times and get price max(round(p(1-f/100),2),1.01) iff f is present, non-zero and >= the generated threshold 2.5, never below 1.01, within half a penny of the product (any tie-break); MOC LAY liabilities scaled by the exchange's WIN / PLACE formulas, unrounded. 'Exactly once per market' is REFUTED on the faithful model by a vm_compute witness over two markets (known finding F-C09-1); a third known finding (missing factor + MOC LAY raises inside the middleware) is reproduced. Tie to code: simulation-model correspondence with removals in 1-3 markets (sequential and event-grouped), evaluated in Coq; independent re-computation of void/reduction on the implementation's orders.",
+        note="Trusted: Coq kernel + vm_compute; simlib.py; exact-decimal model of round(). PLACE-market minimum factor is 0 in the code (its own todo) and in the model. Print Assumptions: closed under the global context.",
+        technique="Coq proof + refutation witnesses (vm_compute) + differential correspondence of the simulation model evaluated in Coq",
+        ref="DESIGN.md §5 C09"),
     "C06": dict(
         text="Coq theorems about the model of passive matching (RunnerAnalytics increments, _process_traded, _calculate_process_traded, _sort_orders): a lone resting order over ANY sequence of traded amounts is filled exactly min(remaining, max(0, E/2 - queue)) when halves are whole pennies and within half a penny per fill otherwise (every tie-break), nothing before the queue has traded; one order consumes only eligible prices, never drives volume negative, twice its fill is covered by what it consumed; any number of orders sharing one copy of the traded volume are filled in total at most half of it (+ half a penny per fill); processing order = lays by descending, backs by ascending price, MOC last (Permutation + StronglySorted); Pending orders are never matched; a runner seen first reports no increment. Tie to code: simulation-model correspondence on the real FlumineSimulation (1-3 strategies, isolation on/off) evaluated in Coq + an independent ledger of traded volume built from the raw updates checked against every passive fragment.",
         note="Trusted: Coq kernel + vm_compute; harness/impl/simlib.py; exact-decimal model with explicit tie-break (Python rounds 0.025 -> 0.03: that is the stated half-penny slack); simulation_available_prices=True is outside (documented double counting). Print Assumptions: closed under the global context.",
